@@ -266,3 +266,45 @@ Proof.
   destruct E as [E _]. destruct (HS i g). lra.
 Qed.
 End Sound.
+
+(* ---------- the executable well-formedness check (run by the correspondence driver on every scenario) implies the
+   well-formedness the soundness theorem assumes ---------- *)
+Lemma list_nat_eqb_eq a b : list_nat_eqb a b = true -> a = b.
+Proof.
+  revert b. induction a as [|x a IH]; intros [|y b] H; cbn [list_nat_eqb] in H; try discriminate; [reflexivity|].
+  apply andb_true_iff in H. destruct H as [H1 H2]. apply Nat.eqb_eq in H1. rewrite (IH b H2), H1. reflexivity.
+Qed.
+Lemma forallb_qleb_nonneg ws : forallb (qleb 0) ws = true -> nonneg ws.
+Proof. intros H. apply Forall_forall. intros w Hw. apply qleb_true. exact (proj1 (forallb_forall _ _) H w Hw). Qed.
+
+Lemma wf_fobjb_sound k i : wf_fobjb k i (getf k i) = true -> wf_fobj k i.
+Proof.
+  unfold wf_fobjb, wf_fobj. intros H. repeat (apply andb_true_iff in H; destruct H as [H ?]).
+  match goal with Hl : Nat.eqb (length (fmaps _)) (length (fops _)) = true |- _ => apply Nat.eqb_eq in Hl; split; [exact Hl|] end.
+  match goal with Ha : qleb (falpha _) 1 = true |- _ => apply qleb_true in Ha end.
+  destruct (fkd (getf k i)) as [| |c] eqn:Ek; [exact I | |].
+  - match goal with Hn : (_ && _)%bool = true |- _ => apply andb_true_iff in Hn; destruct Hn as [N1 N2] end.
+    apply Nat.eqb_eq in N1. destruct (fops (getf k i)) as [|j [|? ?]]; cbn [length] in N1; try discriminate.
+    exists j. split; [reflexivity|].
+    match goal with Hl : length (fmaps _) = _ |- _ => cbn [length] in Hl end.
+    destruct (fmaps (getf k i)) as [|m [|? ?]]; cbn [length] in *; try discriminate. cbn [hd] in N2. apply list_nat_eqb_eq in N2. rewrite N2. reflexivity.
+  - unfold conn_wf. unfold falpha in *.
+    destruct c; match goal with Hn : (_ && _ && _)%bool = true |- _ => apply andb_true_iff in Hn; destruct Hn as [Hn N3]; apply andb_true_iff in Hn; destruct Hn as [N1 N2] end;
+      apply Nat.eqb_eq in N2; apply forallb_qleb_nonneg in N3.
+    + apply Nat.leb_le in N1. repeat split; try assumption; discriminate.
+    + apply Nat.leb_le in N1. repeat split; try assumption; discriminate.
+    + apply Nat.eqb_eq in N1. repeat split; try assumption; [congruence | intros _; exact N1].
+Qed.
+
+Lemma in_combine_seq_nth {T} (l : list T) d : forall a i, (i < length l)%nat -> In ((a + i)%nat, nth i l d) (combine (seq a (length l)) l).
+Proof.
+  induction l as [|x l IH]; intros a i Hi; cbn [length] in Hi; [lia|]. cbn [length seq combine].
+  destruct i as [|i]; [left; rewrite Nat.add_0_r; reflexivity|]. right. replace (a + S i)%nat with (S a + i)%nat by lia. apply IH. lia.
+Qed.
+
+Theorem wf_fkbb_sound k : wf_fkbb k = true -> wf_fkb k.
+Proof.
+  intros H i Hi. apply wf_fobjb_sound. unfold wf_fkbb in H.
+  apply (proj1 (forallb_forall _ _) H (i, getf k i)).
+  unfold getf. apply (in_combine_seq_nth k dummy_fobj 0 i Hi).
+Qed.
